@@ -137,8 +137,10 @@ def gen_case(rng):
                 t = [("lit", "select ")] + t
         if on and ("$" in src or "\\" in src):
             nontriv = True
+        # a retry clause changes nothing about what is delivered (the text is substituted once per attempt, from the text as written)
+        clause = rng.choice(["", "", " retry 2 backoff 1ms", " retry 3 backoff 0s"])
         if kind == "system":
-            text += "system ok\n%s\n\n" % src
+            text += "system ok%s\n%s\n\n" % (clause, src)
             if not on:
                 expected.append(("cmd", src))
             else:
@@ -148,7 +150,7 @@ def gen_case(rng):
                 expected.append(("cmd", e))
         else:
             hdr = "statement ok" if kind == "statement" else "query I"
-            text += "%s\n%s\n%s\n" % (hdr, src, "----\n1\n" if kind == "query" else "")
+            text += "%s%s\n%s\n%s\n" % (hdr, clause, src, "----\n1\n" if kind == "query" else "")
             if not on:
                 expected.append(("sql", src))
             elif t is None:
